@@ -199,14 +199,17 @@ func (g *pgen) pieceWord(depth int) {
 			// finding D9: a span with end spacing holds nothing but one text node
 			sn.MR, sn.BR, sn.PR = 0, 0, 0
 		}
-		g.toks = append(g.toks, tok{k: 'o', node: sn, tight: sn.ML+sn.BL+sn.PL > 0 && !lifted("D15")})
+		// finding D11: a break opportunity between the children of an inline box is not found when
+		// the unit after it straddles the box's end; the outer box of a nested piece keeps a single
+		// child: no white space between the two start edges / the two end edges
+		g.toks = append(g.toks, tok{k: 'o', node: sn, tight: sn.ML+sn.BL+sn.PL > 0 && !lifted("D15") || nest && !lifted("D11")})
 		if nest {
 			in := g.spanNode(depth + 1)
 			g.toks = append(g.toks, tok{k: 'o', node: in, tight: in.ML+in.BL+in.PL > 0 && !lifted("D15")})
 			contents = append(contents, len(g.toks))
 			g.toks = append(g.toks, tok{k: 'w', s: text()})
 			g.toks = append(g.toks, tok{k: 'x', tight: g.wrap && in.MR+in.BR+in.PR > 0 && !lifted("D7"), leaf: true})
-			g.toks = append(g.toks, tok{k: 'x', tight: g.wrap && sn.MR+sn.BR+sn.PR > 0 && !lifted("D7"), leaf: lifted("D11")})
+			g.toks = append(g.toks, tok{k: 'x', tight: g.wrap && sn.MR+sn.BR+sn.PR > 0 && !lifted("D7") || !lifted("D11"), leaf: lifted("D11")})
 		} else {
 			contents = append(contents, len(g.toks))
 			g.toks = append(g.toks, tok{k: 'w', s: text()})
